@@ -142,12 +142,16 @@ def run(case, max_steps=30000):
                         v = await batcher(arg, **kw)
                     rec['outcome'] = ('ok', v)
                 except aio.CancelledError as e:
-                    rec['outcome'] = ('cancelled', e)
+                    if not sim.aborted:
+                        rec['outcome'] = ('cancelled', e)
                     raise
                 except BaseException as e:  # noqa
+                    if sim.aborted:
+                        raise
                     rec['outcome'] = ('exc', e)
                 finally:
-                    rec['done'] = sim.now
+                    if not sim.aborted:
+                        rec['done'] = sim.now
 
             def start(i, c):
                 t = loop.create_task(call(i, c))
